@@ -141,39 +141,66 @@ def spanNum : Bytes → Bytes × Bytes
   | [] => ([], [])
   | b :: r => if isNumChar b then ((spanNum r).1.cons b, (spanNum r).2) else ([], b :: r)
 
-def spanDigits : Bytes → Bytes × Bytes
-  | [] => ([], [])
-  | b :: r => if isDigit b then ((spanDigits r).1.cons b, (spanDigits r).2) else ([], b :: r)
+/-- `*DIGIT` to the end of the text -/
+def numDigits : Bytes → Bool
+  | [] => true
+  | b :: r => isDigit b && numDigits r
 
-/-- `number = [ minus ] int [ frac ] [ exp ]` -/
-def isJsonNumber (t : Bytes) : Bool :=
-  let t := match t with
-    | 0x2D :: r => r
-    | r => r
-  -- int = zero / ( digit1-9 *DIGIT )
-  let (int, t) := spanDigits t
-  if int.isEmpty then false
-  else if int.head? = some 0x30 ∧ int.length > 1 then false
-  else
-    -- frac = decimal-point 1*DIGIT
-    let afterFrac : Option Bytes := match t with
-      | 0x2E :: r => let (fs, r) := spanDigits r; if fs.isEmpty then none else some r
-      | r => some r
-    match afterFrac with
-    | none => false
-    | some t =>
-      -- exp = e [ minus / plus ] 1*DIGIT
-      match t with
-      | [] => true
-      | e :: r =>
-        if e = 0x65 ∨ e = 0x45 then
-          let r := match r with
-            | 0x2D :: r => r
-            | 0x2B :: r => r
-            | r => r
-          let (ds, r) := spanDigits r
-          !ds.isEmpty && r.isEmpty
-        else false
+/-- after `e` / `E`: `[ minus / plus ] 1*DIGIT` to the end of the text -/
+def numExp : Bytes → Bool
+  | [] => false
+  | b :: r =>
+    if b = 0x2D ∨ b = 0x2B then
+      match r with
+      | [] => false
+      | d :: r => isDigit d && numDigits r
+    else isDigit b && numDigits r
+
+/-- inside `frac`, after its first digit: more digits, then `[ exp ]` -/
+def numFracRest : Bytes → Bool
+  | [] => true
+  | b :: r => if isDigit b then numFracRest r else if b = 0x65 ∨ b = 0x45 then numExp r else false
+
+/-- after `int`: `[ frac ] [ exp ]`, `frac = decimal-point 1*DIGIT` -/
+def numAfterInt : Bytes → Bool
+  | [] => true
+  | b :: r =>
+    if b = 0x2E then
+      match r with
+      | [] => false
+      | d :: r => isDigit d && numFracRest r
+    else if b = 0x65 ∨ b = 0x45 then numExp r
+    else false
+
+/-- inside an `int` that does not start with zero -/
+def numIntRest : Bytes → Bool
+  | [] => true
+  | b :: r => if isDigit b then numIntRest r else numAfterInt (b :: r)
+
+/-- `int [ frac ] [ exp ]`, `int = zero / ( digit1-9 *DIGIT )` -/
+def numUnsigned : Bytes → Bool
+  | [] => false
+  | b :: r => if b = 0x30 then numAfterInt r else isDigit b && numIntRest r
+
+/-- `number = [ minus ] int [ frac ] [ exp ]` (RFC 8259 §6) -/
+def isJsonNumber : Bytes → Bool
+  | [] => false
+  | b :: r => if b = 0x2D then numUnsigned r else numUnsigned (b :: r)
+
+mutual
+  /-- every number of the value is a JSON number (what serde_json writes for an integer or a finite float always is) -/
+  def J.numbersOk : J → Bool
+    | .num t => isJsonNumber t
+    | .arr items => JList.numbersOk items
+    | .obj ms => JMembers.numbersOk ms
+    | _ => true
+  def JList.numbersOk : JList → Bool
+    | .nil => true
+    | .cons h t => J.numbersOk h && JList.numbersOk t
+  def JMembers.numbersOk : JMembers → Bool
+    | .nil => true
+    | .cons _ v t => J.numbersOk v && JMembers.numbersOk t
+end
 
 mutual
   /-- one value, leading white space allowed.  Fuel: one unit per value and per member of a container (the number of
@@ -187,12 +214,16 @@ mutual
         if c = 0x22 then (readStrBody (r.length + 1) r).map fun (s, rest) => (.str s, rest)
         else if c = 0x5B then
           match skipWs r with
-          | 0x5D :: rest => some (.arr .nil, rest)
-          | _ => (readItems f r).map fun (l, rest) => (.arr l, rest)
+          | [] => none
+          | c2 :: rest =>
+            if c2 = 0x5D then some (.arr .nil, rest)
+            else (readItems f r).map fun (l, rest) => (.arr l, rest)
         else if c = 0x7B then
           match skipWs r with
-          | 0x7D :: rest => some (.obj .nil, rest)
-          | _ => (readMembers f r).map fun (m, rest) => (.obj m, rest)
+          | [] => none
+          | c2 :: rest =>
+            if c2 = 0x7D then some (.obj .nil, rest)
+            else (readMembers f r).map fun (m, rest) => (.obj m, rest)
         else if c = 0x6E then
           match r with
           | 0x75 :: 0x6C :: 0x6C :: rest => some (.null, rest)
@@ -215,29 +246,37 @@ mutual
       | none => none
       | some (v, r) =>
         match skipWs r with
-        | 0x5D :: rest => some (.cons v .nil, rest)
-        | 0x2C :: rest => (readItems f rest).map fun (l, rest) => (.cons v l, rest)
-        | _ => none
+        | [] => none
+        | c :: rest =>
+          if c = 0x5D then some (.cons v .nil, rest)
+          else if c = 0x2C then (readItems f rest).map fun (l, rest) => (.cons v l, rest)
+          else none
   /-- the members of a non-empty object and its `}` -/
   def readMembers : Nat → Bytes → Option (JMembers × Bytes)
     | 0, _ => none
     | f + 1, inp =>
       match skipWs inp with
-      | 0x22 :: r =>
-        match readStrBody (r.length + 1) r with
-        | none => none
-        | some (k, r) =>
-          match skipWs r with
-          | 0x3A :: r =>
-            match readJ f r with
-            | none => none
-            | some (v, r) =>
-              match skipWs r with
-              | 0x7D :: rest => some (.cons k v .nil, rest)
-              | 0x2C :: rest => (readMembers f rest).map fun (m, rest) => (.cons k v m, rest)
-              | _ => none
-          | _ => none
-      | _ => none
+      | [] => none
+      | q :: r =>
+        if q = 0x22 then
+          match readStrBody (r.length + 1) r with
+          | none => none
+          | some (k, r) =>
+            match skipWs r with
+            | [] => none
+            | colon :: r =>
+              if colon = 0x3A then
+                match readJ f r with
+                | none => none
+                | some (v, r) =>
+                  match skipWs r with
+                  | [] => none
+                  | c :: rest =>
+                    if c = 0x7D then some (.cons k v .nil, rest)
+                    else if c = 0x2C then (readMembers f rest).map fun (m, rest) => (.cons k v m, rest)
+                    else none
+              else none
+        else none
 end
 
 /-- a whole document: one value, white space around it, nothing else (the fuel is the length of the text: a value has
